@@ -237,6 +237,15 @@ def run(sc):
             elif rpc == 'GetOperation':
                 r = svc.GetOperation(operations_pb2.GetOperationRequest(name=st['name']))
                 res = {'ok': True, 'op': op_summary(r)}
+            elif rpc == 'RestartServer':
+                # a new server process on the same persistent store: every in-memory attribute is back to its __init__ value,
+                # the datastore keeps its contents
+                old = svc
+                svc, fac2 = make_service(sc.get('backend', 'ram'), sc.get('policy'))
+                svc.datastore = old.datastore
+                fac2.n_suggest, fac2.n_stop, fac2.log = fac.n_suggest, fac.n_stop, fac.log
+                fac = fac2
+                res = {'ok': True}
             elif rpc == 'snapshot':
                 res = {'ok': True, 'snapshot': snapshot(svc, study, clients)}
             else:
